@@ -504,7 +504,7 @@ func TestC02(t *testing.T) {
 		"(a) one real node + fake peers: PRNG sequences of accusations about the node itself (suspect, dead, self-dead, alive newer / equal with other meta or versions / identical / other address, UpdateNode in between) x incarnation relation {own-1, own, own+1, own+1000, 2^32-2-k} x path {packet, compound, piggybacked on a ping, compressed, push/pull, join push/pull}; after each: self record alive and listed, address unchanged, the ping is still acked; an accusation at >= own incarnation => incarnation strictly above it, an alive message with exactly that incarnation and the node's own address/meta/versions queued, health +1 (clamped); a stale one => no change at all; every 8th step is a BATCH of 2-4 accusations arriving at the same instant (one compound packet, or packets from two peers): final incarnation strictly above every accusation at >= the prior own incarnation, one alive with the final incarnation and the node's own description queued, health up by between 1 and the number of such accusations (clamped), all-stale batches change nothing. (b) 4-node clusters where a node is restarted on the same address while peers remember a higher incarnation (alive or already dead); the invariant monitor runs at every poll. Cell = (kind, relation, path).")
 	defer run.Finish()
 	run.Assume("an alive claim naming the node from a different address is a competing claimant (judged by C08), only the invariants are asserted for it", "a push/pull whose entries fail the version compatibility check is rejected as a whole (C09)")
-	cfgs := []c01Cfg{{"", false, false, 0, false, false}, {"lbl", true, false, 0, false, false}, {"", false, true, 0, true, false}}
+	cfgs := []c01Cfg{{"", false, false, 0, false, false, false}, {"lbl", true, false, 0, false, false, false}, {"", false, true, 0, true, false, false}}
 
 	// explicit cross product
 	kinds := []string{"suspect", "dead", "left", "alive"}
